@@ -25,7 +25,7 @@ OBJS = ['m1', 'm2', 'm3', 'm4', 'm5', 'm6', 's1', 's2', 's3', 's4', 's5', 's6', 
 
 ABBR = {
     'markup': {'ok': 'ul>li.item$*2>a', 'wrap': 'ul>li*', 'badparse': 'ul>li)', 'badsnippet': 'ul>bad*', 'bem': 'div.b>.-e_m+p.b__x', 'var': '!>sig'},
-    'css': {'num': 'foo', 'tab': 'tab', 'plain': 'p10+m0-a', 'raw': '@k', 'badparse': 'p{'},
+    'css': {'num': 'foo', 'tab': 'tab', 'plain': 'p10+m0-a', 'raw': '@k', 'fnarg': 'trf:sc(2)', 'fnbare': 'trf:sc', 'badparse': 'p{'},
 }
 
 
@@ -161,7 +161,7 @@ def _run_histories(items):
 
 def run(out):
     quick = out.tier == 'quick'
-    out.rule = ('one case per call history generated by Session.tla (all histories up to the bound over 76 call kinds = 14 caller '
+    out.rule = ('one case per call history generated by Session.tla (all histories up to the bound over 92 call kinds = 14 caller '
                 'objects x abbreviations, plus simulated longer ones); non-trivial = at least two calls that touch the same caller '
                 'object or the same cache; distinct by history')
     out.assumptions = ['CPython gc census: an object of a class defined in emmet.* that is alive after the call, was not alive before '
